@@ -14,6 +14,11 @@ def classes(ctx):
                 for inplace in (False, True):
                     for buf in (False, True):
                         out.append((a, b, ncols, inplace, buf))
+    # wider column counts on small domains: column blocks with a remainder of two or more columns (ncols mod nblock >= 2 needs ncols >= 5)
+    for (a, b) in ((1, 2), (0, 1), (2, 2)):
+        for ncols in ((5, 7) if not ctx.thorough else (5, 6, 7, 8)):
+            for inplace in (False, True):
+                for buf in (False, True): out.append((a, b, ncols, inplace, buf))
     return out
 def obligations(ctx):
     obs = []
